@@ -16,8 +16,8 @@ import (
 	"verif/internal/evid"
 	"verif/internal/gen"
 	"verif/internal/hooks"
-	"verif/internal/sched"
 	"verif/internal/model"
+	"verif/internal/sched"
 	"verif/internal/simfs"
 )
 
